@@ -121,6 +121,7 @@ def main(argv=None):
                     by_sig[new] = by_sig.pop(old)
                 else:
                     harness_errors.append((v, got))
+                    by_sig.pop(v["sig"])  # never reported as a violation
 
     known, fixed = load_known(prop)
     new_sigs = [s for s in by_sig if s not in known]
@@ -215,7 +216,9 @@ def main(argv=None):
     if harness_errors:
         for v, got in harness_errors[:5]:
             print("HARNESS-ERROR candidate did not reproduce in a fresh process:", v["sig"], json.dumps(v["case"], default=str)[:300])
-        return 2
+        if not new_sigs:
+            return 2
+        # confirmed violations exist as well: they decide the verdict; the unconfirmed candidates are only listed
     if agg["evaluations"] == 0:
         print("HARNESS-ERROR nothing was explored")
         return 2
